@@ -170,9 +170,11 @@ CHECKS['C16'] = ('exploration', 'enum',
     'whose target is the hop URL\'s normalised path?query, exactly one Host equal to the hop\'s '
     'host[:port], sent to that server, no bare CR/LF, no credentials/cookies of another host, no '
     'https Referer on http. The credential chains also run with every server answering 401 first '
-    '(authentication state) and against WebClient.session() directly.',
+    '(authentication state), against WebClient.session() directly, and through --http-proxy '
+    '(absolute-form target); a multi-host crawl checks host-only/domain/planted cookies, and no '
+    'request to another host may contain the URL credentials in any line (Referer).',
     'expected target/Host derived from wpull\'s URL normaliser (C10 covers normalisation); no '
-    'TLS, no proxy mode.', '5/C16')
+    'TLS or CONNECT tunnels (proxy mode is run for http URLs).', '5/C16')
 CHECKS['C18'] = ('model_checking', 'explore',
     'explicit-state search over adversarial server strategies against the unmodified application',
     'For --max-redirect 0-2 (3 thorough) x --tries 1-2 (3), the server answer at each of the first '
